@@ -2,6 +2,8 @@ package c02
 
 import (
 	"fmt"
+	"runtime"
+	"runtime/debug"
 	"sync"
 	"time"
 
@@ -75,7 +77,7 @@ func newRunner(e *env, sc scenario) *runner {
 	r := &runner{env: e, sc: sc, opened: map[int]int{}, closed: map[int]int{}, firstP: map[int]bool{}, tokens: map[string]*token{}, curGen: -1}
 	for i, ts := range sc.toks {
 		id := fmt.Sprintf("k%d", i)
-		r.tokens[id] = &token{id: id, spec: ts, accepted: make(chan int, 1), release: make(chan struct{}), done: make(chan [2]string, 1)}
+		r.tokens[id] = &token{id: id, spec: ts, accepted: make(chan int, 1), release: make(chan struct{}), done: make(chan [2]string, 1), acceptor: -1}
 	}
 	r.lo.Store(-1)
 	r.hi.Store(-1)
@@ -110,6 +112,16 @@ func (sc scenario) stableAddrs() []int {
 
 func (r *runner) execute() {
 	_ = caddy.Stop() // clean slate: caddy's config state is process-global
+	for u := range r.env.upath {
+		_ = removeIfExists(r.env.upath[u])
+	}
+	// Descriptors caddy leaks (File() in unixListener.Close, reuseUnixSocket) are closed by
+	// finalizers; when that happens is up to the collector. Collect now and keep the
+	// collector off while the case runs so that what we observe does not depend on it.
+	runtime.GC()
+	runtime.GC()
+	defer debug.SetGCPercent(debug.SetGCPercent(-1))
+
 	cur.Store(r)
 	defer cur.Store(nil)
 
@@ -120,14 +132,17 @@ func (r *runner) execute() {
 	n := len(r.sc.cfgs)
 	for k, c := range r.sc.cfgs {
 		r.loading = k
+		r.swapped = false
 		if c.same {
-			r.record('L', k, "same", true)
-			res := "ok"
+			r.record('L', k, "", true)
+			res := "same"
 			if prevJSON != nil {
 				if err := caddy.Load(prevJSON, false); err != nil {
 					res = "err"
+					r.fail("unforced-identical-load-failed", err.Error())
 				}
 			}
+			r.results = append(r.results, res)
 			r.record('R', k, res, true)
 			r.record('D', k, "", true)
 			continue
@@ -140,7 +155,17 @@ func (r *runner) execute() {
 		res := "ok"
 		if err != nil {
 			res = "err"
+			if !c.fail {
+				r.fail("valid-config-rejected", fmt.Sprintf("load %d: %v", k, err))
+			}
+		} else if c.fail {
+			r.fail("harness-fault-not-injected", fmt.Sprintf("load %d was expected to be rejected", k))
 		}
+		if err == nil && !r.swapped {
+			r.swapped = true
+			r.mark('W', k)
+		}
+		r.results = append(r.results, res)
 		r.record('R', k, res, true)
 		r.releaseAt('r')
 		if err == nil {
@@ -167,9 +192,11 @@ func (r *runner) execute() {
 
 	// final stop: everything is dropped
 	r.loading = n
+	r.swapped = false
 	r.startTokens(n)
-	r.record('L', n, "stop", true)
+	r.record('L', n, "", true)
 	_ = caddy.Stop()
+	r.results = append(r.results, "ok")
 	r.record('R', n, "ok", true)
 	r.releaseAt('r')
 	r.waitDrained(r.curGen)
